@@ -42,6 +42,14 @@ type c16x struct {
 	hOrder   []string
 	otherID  int
 	atoms    map[string]bool // non-governance operands that occur in authority checks (facts for the generator)
+	mod      string          // import-path prefix of the module being read ("" = fx-core itself)
+}
+
+func (x *c16x) modPrefix() string {
+	if x.mod != "" {
+		return x.mod
+	}
+	return modPath
 }
 
 // c16Dirs lists every directory under x/ and app/ that contains non-test Go files.
@@ -78,8 +86,8 @@ func (x *c16x) typeName(rel string, f *ast.File, e ast.Expr) string {
 	case *ast.SelectorExpr:
 		if id, ok := t.X.(*ast.Ident); ok {
 			ip := imports(f)[id.Name]
-			if strings.HasPrefix(ip, modPath) {
-				return strings.TrimPrefix(ip, modPath) + "." + t.Sel.Name
+			if strings.HasPrefix(ip, x.modPrefix()) {
+				return strings.TrimPrefix(ip, x.modPrefix()) + "." + t.Sel.Name
 			}
 			return "ext:" + id.Name + "." + t.Sel.Name
 		}
@@ -500,6 +508,17 @@ func (x *c16x) helper(bt, name, kind string) string {
 							stmts = append(stmts, ".setIf "+par(x.bexpr(fc, t.Cond))+" "+v)
 							continue
 						}
+					}
+				}
+			}
+			// if x, err := f(…); <cond> { return <error> }   — a local check that can only reject or fall through (the
+			// init DEFINES fresh locals scoped to the `if`, so nothing outside is assigned)
+			if as, ok := t.Init.(*ast.AssignStmt); ok && as.Tok == token.DEFINE && t.Else == nil && len(t.Body.List) == 1 && kind == "error" && !assignsNamed(t) {
+				if r, ok := t.Body.List[0].(*ast.ReturnStmt); ok && len(r.Results) == 1 {
+					if v, ok := val(r.Results[0]); ok && v == "true" {
+						x.otherID++
+						stmts = append(stmts, fmt.Sprintf(".retIf (.other %d %s) true", x.otherID, leanStr(oneLine(x.c.src(t.Init)+"; "+x.c.src(t.Cond), 80))))
+						continue
 					}
 				}
 			}
